@@ -35,6 +35,17 @@ def jobs_for(tier, rng):
         jobs.append({"mdp": m, "kind": "PVI", "gamma": g, "eps": eps, "period": p, "clear": k % 3 == 0,
                      "gamma_as_int": k % 4 == 0, "eps_as_int": k % 6 == 0,
                      "calls": calls, "mbs": rng.choice([2, 3, 1024]), "cert": cert, "tag": f"pvi{k}"})
+    # degenerate shapes: one state / action / event, all-zero rewards, period 1
+    from . import tabular as T
+    for k, (ns, na, ne) in enumerate([(1, 1, 1), (1, 2, 1), (1, 1, 2), (2, 1, 1), (3, 2, 1)]):
+        m = T.random_mdp(rng, ns=ns, na=na, ne=ne, PD=1 if ne == 1 else 2, rmax=rng.choice([0, 2]), v0max=rng.choice([0, 3]),
+                         plain_render=k % 2 == 0)
+        gen.fix_dups(m)
+        g = rng.choice([[1, 1], [1, 2]])
+        jobs.append({"mdp": m, "kind": "PVI", "gamma": g, "eps": [1, rng.choice([0, 2])],
+                     "period": rng.choice([2, 3] if g == [1, 1] else [1, 2, 3]), "clear": False,   # period 1 is rejected when undiscounted
+ "calls": rng.choice([[1], [1, 1, 6], [9]]),
+                     "mbs": rng.choice([1, 1024]), "cert": False, "tag": f"pvi-degenerate{k}"})
     # tens of thousands of states; the trace is reduced exactly (solver_worker.quotient)
     for N in ([20100] if tier == "quick" else [20100, 50021]):
         jobs.append({"mdp": gen.corridors(rng, N, [2, 3]), "kind": "PVI", "gamma": [1, 1], "eps": [1, 1], "period": 2,
